@@ -29,7 +29,7 @@ def dispatch (prop : String) : Option (String → String × String) :=
   | "C10" => some fun line => if line.startsWith "KAN" then Kan.run "KAN" line else C10.run line
   | "C04" => some C04.run
   | "C13" => some C13.run
-  | "C19" => some C19.run
+  | "C19" => some fun line => if line.startsWith "KAN" then Kan.run "KAN" line else C19.run line   -- composed kanata-level model
   | "C05" => some C05.run
   | "C05o" => some C05.runOracle
   | "C17" => some C17.run
